@@ -52,7 +52,17 @@ def col_lists(tier):
         yield from itertools.permutations(COLS, n)
 
 
+def scen_universe(tier):
+    """a two-scenario project (scenario-specific effort) with one report per scenario, generated in either order"""
+    cols_list = [("id", "cost"), ("id", "start", "end", "cost"), ("cost",), ("id", "end")]
+    for cols in cols_list:
+        for order in (("plan", "s2"), ("s2", "plan")):
+            for fmts in (("json", "csv"), ("csv",)):
+                yield {"pi": "scen", "cols": cols, "rf": "%Y-%m-%d %H:%M", "pf": None, "leaf": None, "fmts": fmts, "order": order}
+
+
 def universe(tier):
+    yield from scen_universe(tier)
     for pi in range(len(projects())):
         for cols in col_lists(tier):
             for rf in RFMT:
@@ -66,7 +76,21 @@ def universe(tier):
                             yield {"pi": pi, "cols": cols, "rf": rf, "pf": pf, "leaf": leaf, "fmts": fmts}
 
 
+def scen_project():
+    T = lambda i, m, r="r1", **kw: {"id": i, "effort": m, "alloc": [r], **kw}  # noqa: E731
+    return {"scenarios": [("plan", [("s2", [])])], "resources": [{"id": "r1", "rate": 50.0}, {"id": "r2", "rate": 20.0}],
+            "tasks": [T("a", 300, scen=[("s2", "effort 540min")]), {"id": "g", "children": [T("b", 120, "r2", deps=["a"]), T("c", 60, "r2", scen=[("s2", "effort 30min")])]}]}
+
+
 def to_spec(it):
+    if it["pi"] == "scen":
+        spec = scen_project()
+        reps = []
+        for sid in it["order"]:
+            reps.append(f'taskreport rep_{sid} "rep_{sid}" {{\n  formats ' + ", ".join(it["fmts"]) + "\n  columns " + ", ".join(it["cols"]) +
+                        f'\n  timeformat "{it["rf"]}"\n  scenarios {sid}\n}}')
+        spec["reports"] = reps
+        return spec
     spec = dict(projects()[it["pi"]])
     rep = ['taskreport rep "rep" {', "  formats " + ", ".join(it["fmts"]), "  columns " + ", ".join(it["cols"])]
     if it["rf"]:
@@ -103,14 +127,21 @@ def evaluate(item):
     sig0, obs = snapshot(project)
     r["s"] = sig0
     tf = refreport.effective_timeformat(item["rf"], item["pf"])
-    titles, exp = refreport.rows(spec, obs, list(item["cols"]), bool(item["leaf"]), tf)
+    multi = item["pi"] == "scen"
+    expected = {}
+    if multi:
+        for sid in item["order"]:
+            expected[f"rep_{sid}"] = refreport.rows(spec, obs, list(item["cols"]), False, tf, sc=0 if sid == "plan" else 1)
+    else:
+        expected["rep"] = refreport.rows(spec, obs, list(item["cols"]), bool(item["leaf"]), tf)
+    titles, exp = next(iter(expected.values()))
     v = []
     outdir = tempfile.mkdtemp(prefix="verif-c18-")
     try:
         project.outputDir = outdir
         reports = [rp for rp in project.reports]
-        if len(reports) != 1:
-            v.append(("report-count", f"{len(reports)} reports in the project, 1 declared"))
+        if len(reports) != len(expected):
+            v.append(("report-count", f"{len(reports)} reports in the project, {len(expected)} declared"))
         for gen in (1, 2, 3):
             for rp in reports:
                 ctx = ReportContext(project, rp)
@@ -122,6 +153,8 @@ def evaluate(item):
                 finally:
                     ctx.pop()
                 r["tr"] += 1
+                rname = rp.name
+                titles, exp = expected.get(rname, (titles, exp))
                 # API vs reference
                 jrows = [[rec.get(t.lower(), "<missing>") for t in titles] for rec in (api_json or {}).get("data", [])]
                 crows = [list(row) for row in (api_csv or [])[1:]]
@@ -142,19 +175,19 @@ def evaluate(item):
                                                   f"report says {gc!r}, scheduled value renders as {ec!r}"))
                 # files vs API
                 for fmt in item["fmts"]:
-                    path = os.path.join(outdir, f"rep.{fmt}")
+                    path = os.path.join(outdir, f"{rname}.{fmt}")
                     if not os.path.exists(path):
                         v.append(("file-missing", f"{path} was not written"))
                         continue
                     if fmt == "json":
                         data = json.load(open(path))
                         if data.get("data") != (api_json or {}).get("data") or data.get("columns") != (api_json or {}).get("columns"):
-                            v.append(("file-vs-api", "rep.json differs from Report.to_json()"))
+                            v.append(("file-vs-api", f"{rname}.json differs from Report.to_json()"))
                     else:
                         frows = list(csv.reader(open(path, newline="")))
                         if frows != [list(map(str, row)) for row in api_csv]:
-                            v.append(("file-vs-api", "rep.csv differs from Report.to_csv()"))
-                extra = sorted(set(os.listdir(outdir)) - {f"rep.{f}" for f in item["fmts"]})
+                            v.append(("file-vs-api", f"{rname}.csv differs from Report.to_csv()"))
+                extra = sorted(set(os.listdir(outdir)) - {f"{n}.{f}" for f in item["fmts"] for n in expected})
                 if extra:
                     v.append(("file-extra", f"unexpected files {extra}"))
             sig1, _o = snapshot(project)
@@ -186,7 +219,7 @@ def run(ctx):
     st = Stats()
     explore(ctx, universe(ctx.tier), "mc.props.c18:evaluate", st, payload=payload, sample_of=sample, trait=trait)
     cov = st.coverage(
-        "7 scheduled projects (rates, efficiency, nested containers, milestone, unschedulable and run-away leaves, team, ALAP) x every "
+        "7 scheduled projects (+ a two-scenario project with one report per scenario, generated in either order) (rates, efficiency, nested containers, milestone, unschedulable and run-away leaves, team, ALAP) x every "
         "ordered selection of <= 2 (thorough 3) columns x report/project time formats x leaf-only flag x formats, each generated 3 times; "
         "states = distinct schedule observations; transitions = report generations; every case is non-trivial (distinct cases counted)")
     return ctx.finish(cov, ASSUME)
